@@ -478,8 +478,12 @@ def ditherGrids (nx ny : Nat) (xs ys : List Rat) : Option (List (List Rat × Lis
 inductive SuperErr where
   /-- an axis with fewer than two points: `x[1] - x[0]` raises IndexError -/
   | index
-  /-- an oversampling factor that rounds to 0: `make_uniform_grid(0, 1)` raises ZeroDivisionError -/
+  /-- an oversampling factor that rounds to 0, statistic 'mean': `make_uniform_grid` has no points, the
+  loop does not run and `field / len(dithers)` is `0 / 0` on Python ints: ZeroDivisionError -/
   | zeroDiv
+  /-- an oversampling factor that rounds to 0, statistics 'sum' / 'min' / 'max': the loop does not
+  run and `field.grid = grid` is applied to the initial `0` resp. `None`: AttributeError -/
+  | attribute
   deriving DecidableEq, Repr
 
 /-- `evaluate_supersampled(gen, grid, (nx, ny))` on a separated grid, statistic 'mean'.  The spacings
@@ -519,14 +523,15 @@ def combineFields (st : Stat) (n : Nat) (fs : List (List Rat)) : List Rat :=
   | .max, [] => []
   | .max, f :: r => r.foldl maxFields f
 
-/-- `evaluate_supersampled(gen, grid, (nx, ny), statistic=st)` on a separated grid: the errors are
-raised before the statistic is looked at, exactly as in `supersampled` -/
+/-- `evaluate_supersampled(gen, grid, (nx, ny), statistic=st)` on a separated grid.  A one-point axis
+fails in the spacings for every statistic (IndexError); a factor 0 leaves the loop over the dithers
+empty and fails afterwards — in the division for 'mean', in `field.grid = grid` for the others. -/
 def supersampledStat (st : Stat) (s : Shape) (nx ny : Nat) (xs ys : List Rat) :
     Except SuperErr (List Rat) :=
   match ditherGrids nx ny xs ys with
   | none => .error .index
   | some gs =>
-    if nx = 0 ∨ ny = 0 then .error .zeroDiv
+    if nx = 0 ∨ ny = 0 then .error (if st = .mean then .zeroDiv else .attribute)
     else .ok (combineFields st (xs.length * ys.length) (gs.map fun g => evalSep s g.1 g.2))
 
 /-! ## distance-to-a-decision flags (used only to skip near-boundary points in the tie) -/
